@@ -143,7 +143,9 @@ def jobs_for(tier):
             def exp(sym, zs, n1=n1, n2=n2, n3=n3, v1=v1, v2=v2): return [(z3.BoolVal(True), ('out', bt(sym, 'p', n1) + [v1] + bt(sym, 'q', n2) + [v2] + bt(sym, 'r', n3) + [b'\n']))]
             J.append(make_job('interp-%d%d%d-%d' % (n1, n2, n3, pi), parts, exp))
     # non-ASCII text INSIDE the slot source (string literals, keys) with symbolic text around the slot
-    inner_pool = [(b'a + " \xe2\x82\xac"', b'x \xe2\x82\xac'), (b'"\xc3\xa9\xc3\xa9"', b'\xc3\xa9\xc3\xa9'), (b'{"\xc3\xbc": a}["\xc3\xbc"]', b'x'), (b'f("\xf0\x9f\x98\x80")', b'\xf0\x9f\x98\x80!'), (b'"\xe6\x97\xa5" + b', b'\xe6\x97\xa5yz')]
+    inner_pool = [(b'a + " \xe2\x82\xac"', b'x \xe2\x82\xac'), (b'"\xc3\xa9\xc3\xa9"', b'\xc3\xa9\xc3\xa9'), (b'{"\xc3\xbc": a}["\xc3\xbc"]', b'x'), (b'f("\xf0\x9f\x98\x80")', b'\xf0\x9f\x98\x80!'), (b'"\xe6\x97\xa5" + b', b'\xe6\x97\xa5yz'),
+                  # string literals with escapes inside the slot source: an escaped backslash before the closing quote, escaped quotes, an escaped `$`
+                  (b'a + "\\\\"', b'x\\'), (b'"\\"q\\""', b'"q"'), (b'"\\$" + b', b'$yz'), (b'"\\\\" + "\\\\"', b'\\\\'), (b'f("\\x41\\\\")', b'A\\!')]
     for pi, (e1, v1) in enumerate(inner_pool):
         for (n1, n3) in ((0, 0), (1, 0), (0, 1), (1, 1)):
             parts = [head, b'print($"'] + syms('p', n1) + [b'${' + e1 + b'}'] + syms('r', n3) + [b'${a}")\n']
